@@ -184,4 +184,58 @@ def c12(tier):
     return finish('C12', tier, v, cov, te, wall)
 
 
-CHECKS = {'C12': c12, 'C07': c07, 'C17': c17, 'C04': c04, 'C01': c01, 'C02': c02, 'C03': c03, 'C05': c05, 'C11': c11, 'C14': c14}
+def confirm_by_replay(prog, inv, tracefile, bindir, d):
+    """replay a TLC counterexample that ends in a quiescent state: its history (with its kill) must be
+    reproducible on the real code, observation by observation; tries every kill position"""
+    import json
+    import os
+    import harness
+    if not os.path.exists(tracefile):
+        return None
+    t = json.load(open(tracefile))
+    fin = t['counterexample']['state'][-1][1]
+    hist = fin['hist']
+    if not hist or fin['cmd']['kind'] != 'idle':
+        return None
+    for seed in range(40):
+        ok, rep = harness.replay_group(prog, [hist], os.path.join(d, 'confirm_replay'), bindir, kill_seed=seed,
+                                       cmd_timeout=30)
+        if ok:
+            with open(os.path.join(d, 'confirmed_%s.json' % inv), 'w') as f:
+                json.dump({'program': prog, 'history': hist, 'kill_seed': seed, 'report': rep}, f, indent=1, default=list)
+            return True
+    return False
+
+
+def c10(tier):
+    verdict = common.Verdict('C10')
+    inv = ['Fresh', 'RecoversOk', 'NotHung', 'NoPanic']
+    cats = {'rc', 'ran', 'file', 'rows', 'row.gen', 'row.ovr', 'row.failed', 'row.changed', 'row.checked',
+            'row.stamp', 'row.csum', 'edge', 'tmp'}
+    # (a) every kill point outside the two known windows: the properties must hold
+    v, cov, te, wall = syscheck.run_family(
+        'C10', tier, programs.crash_family(), inv, [], cats, (4, 3), sample_n=None if tier == 'thorough' else 40,
+        repeat=4 if tier == 'thorough' else 2, min_cmds=1, cmd_timeout=30, verdict=verdict,
+        required_actions=['CrashTree'],
+        note='SIGKILL of the whole tree (history step "crash") or of one redo process (command marked killed) at '
+             'every specification state; real kills at the K-th commit/rename gate of the hooked redo, K from a '
+             'dry run on a hard-linked clone; the post-kill files and database must equal a specification state '
+             'and the recovery and later edit/rebuild steps must behave as that state predicts')
+    # (b), (c) the known windows: the specification itself shows the violation; it is confirmed on the real code
+    for fam_, label in ((programs.crash_family(window=True), 'rename..commit window'),
+                        ([p for p in programs.crash_family(stamp_window=True) if 'stamped' in p['name']],
+                         'redo-stamp..record window')):
+        v, cov2, te2, wall2 = syscheck.run_family(
+            'C10', tier, fam_, inv, [], cats, (4, 3), sample_n=10, min_cmds=1, cmd_timeout=30, verdict=verdict,
+            confirm_spec=confirm_by_replay, subdir='win', note=label)
+        te += te2
+        wall += wall2
+        cov['states'] += cov2['states']
+        cov['transitions'] += cov2['transitions']
+        cov['traces_validated_against_impl'] += cov2['traces_validated_against_impl']
+        cov.setdefault('window_runs', []).append({'which': label, 'states': cov2['states'],
+                                                  'replayed': cov2['behaviours_replayed']})
+    return finish('C10', tier, verdict, cov, te, wall)
+
+
+CHECKS = {'C10': c10, 'C12': c12, 'C07': c07, 'C17': c17, 'C04': c04, 'C01': c01, 'C02': c02, 'C03': c03, 'C05': c05, 'C11': c11, 'C14': c14}
